@@ -11,8 +11,8 @@ import random
 
 import torch
 
-CLOUD_KINDS = ["generic", "aniso", "planar", "collinear", "nearplanar", "nearcollinear", "duplicated", "two", "lattice", "cube", "octa"]
-SYMMETRIC = ("cube", "octa")     # exactly representable, highly symmetric: equal singular values, equidistant points (exact ties)
+CLOUD_KINDS = ["generic", "aniso", "planar", "collinear", "nearplanar", "nearcollinear", "duplicated", "two", "lattice", "cube", "octa", "grid", "triangle"]
+SYMMETRIC = ("cube", "octa", "grid", "triangle")     # exactly representable, highly symmetric: equal singular values, equidistant points (exact ties)
 
 
 # ----------------------------------------------------------------------------- small linear algebra (python floats)
@@ -87,10 +87,12 @@ def gen_cloud(r: random.Random, N: int, kind: str, extent: float, rotate: bool, 
     thin = 10 ** r.uniform(-12, -2)
     sc = {"generic": (1, 1, 1), "aniso": (1, r.choice([0.5, 0.1]), r.choice([0.3, 0.03])), "planar": (1, r.choice([1, 0.3]), 0),
           "collinear": (1, 0, 0), "nearplanar": (1, 1, thin), "nearcollinear": (1, thin, thin * r.choice([1, 0.1])),
-          "duplicated": (1, 1, 1), "two": (1, 1, 1), "lattice": (1, 1, 1), "cube": (1, 1, 1), "octa": (1, 1, 1)}[kind]
+          "duplicated": (1, 1, 1), "two": (1, 1, 1), "lattice": (1, 1, 1), "cube": (1, 1, 1), "octa": (1, 1, 1), "grid": (1, 1, 0), "triangle": (1, 1, 0)}[kind]
     if kind in SYMMETRIC:
-        verts = [[float(a), float(b), float(c)] for a in (-1, 1) for b in (-1, 1) for c in (-1, 1)] if kind == "cube" else \
-            [[1.0, 0, 0], [-1.0, 0, 0], [0, 1.0, 0], [0, -1.0, 0], [0, 0, 1.0], [0, 0, -1.0]]
+        verts = {"cube": [[float(a), float(b), float(c)] for a in (-1, 1) for b in (-1, 1) for c in (-1, 1)],
+                 "octa": [[1.0, 0, 0], [-1.0, 0, 0], [0, 1.0, 0], [0, -1.0, 0], [0, 0, 1.0], [0, 0, -1.0]],
+                 "grid": [[float(a), float(b), 0.0] for a in (-1, 0, 1) for b in (-1, 0, 1)],            # planar, axis-aligned, symmetric
+                 "triangle": [[0.0, 0.0, 0.0], [1.0, 0.0, 0.0], [0.0, 1.0, 0.0]]}[kind]                 # the docstring example
         pts = [[v * extent for v in verts[i % len(verts)]] for i in range(N)]
         if offset:      # an exactly representable shift keeps every coincidence exact
             pts = [[p[0] + float(int(offset)), p[1], p[2] - float(int(offset))] for p in pts]
@@ -115,9 +117,26 @@ def gen_cloud(r: random.Random, N: int, kind: str, extent: float, rotate: bool, 
     return pts
 
 
-QUARTER = [[[0.0, -1.0, 0.0], [1.0, 0.0, 0.0], [0.0, 0.0, 1.0]], [[1.0, 0.0, 0.0], [0.0, 0.0, -1.0], [0.0, 1.0, 0.0]],
-           [[0.0, 0.0, 1.0], [0.0, 1.0, 0.0], [-1.0, 0.0, 0.0]], [[0.0, 1.0, 0.0], [0.0, 0.0, 1.0], [1.0, 0.0, 0.0]],
-           [[-1.0, 0.0, 0.0], [0.0, -1.0, 0.0], [0.0, 0.0, 1.0]], [[0.0, 1.0, 0.0], [1.0, 0.0, 0.0], [0.0, 0.0, -1.0]]]
+def _cube_rotations():
+    """the 24 rotations of the cube: signed permutation matrices with determinant +1 (quarter / half turns about the axes, half turns
+    about the face diagonals (a, ±a, 0), 120° turns about the body diagonals = cyclic permutations): every entry is exactly 0 / ±1,
+    diagonal entries tie, traces are exactly -1, 0, 1, 3"""
+    import itertools
+    out = []
+    for perm in itertools.permutations(range(3)):
+        for sg in itertools.product((1.0, -1.0), repeat=3):
+            R = [[0.0] * 3 for _ in range(3)]
+            for i_, j_ in enumerate(perm):
+                R[i_][j_] = sg[i_]
+            det = (R[0][0] * (R[1][1] * R[2][2] - R[1][2] * R[2][1]) - R[0][1] * (R[1][0] * R[2][2] - R[1][2] * R[2][0])
+                   + R[0][2] * (R[1][0] * R[2][1] - R[1][1] * R[2][0]))
+            if det > 0:
+                out.append(R)
+    return out
+
+
+CUBE24 = _cube_rotations()
+QUARTER = CUBE24        # (kept name: the rotation kind "quarter" now draws from all 24)
 
 
 def mat_to_q(R):
@@ -141,7 +160,7 @@ def make_item(spec: dict):
     N = spec["N"]
     src = gen_cloud(r, N, spec["cloud"], spec["extent"], spec["rotate"], spec["offset"] * spec["extent"])
     if spec["qkind"] == "quarter":      # exact signed permutation: images of lattice / cube points are exact, all ties exact
-        R = QUARTER[r.randrange(len(QUARTER))]
+        R = CUBE24[spec["rot_index"] % 24] if "rot_index" in spec else CUBE24[r.randrange(24)]
         q = mat_to_q(R)
     else:
         q = rand_quat(r, spec["qkind"])
